@@ -4,6 +4,7 @@ go 1.21
 
 require (
 	github.com/massnetorg/mass-core v0.0.0-20210809014450-d944e876e3fb
+	github.com/sirupsen/logrus v1.2.0
 	massnet.org/mass-wallet v0.0.0
 )
 
@@ -24,7 +25,6 @@ require (
 	github.com/pkg/errors v0.8.1 // indirect
 	github.com/rifflock/lfshook v0.0.0-20180920164130-b9218ef580f5 // indirect
 	github.com/shopspring/decimal v1.2.0 // indirect
-	github.com/sirupsen/logrus v1.2.0 // indirect
 	github.com/syndtr/goleveldb v1.0.1-0.20210305035536-64b5b1c73954 // indirect
 	golang.org/x/crypto v0.0.0-20210322153248-0c34fe9e7dc2 // indirect
 	golang.org/x/net v0.0.0-20210226172049-e18ecbb05110 // indirect
